@@ -4,7 +4,7 @@ From Coq Require Import ZifyBool.
 
 Definition obs_of (r : br_result) : br_obs :=
   {| bo_panic := false; bo_err := r_err r; bo_gone := false; bo_status := r_status r; bo_workload := r_workload r;
-     bo_finalizer := r_finalizer r; bo_requeue := match r_requeue r with RqAfter => true | RqNone => false end |}.
+     bo_finalizer := r_finalizer r; bo_requeue := match r_requeue r with RqAfter => true | RqNone => false end; bo_view := None |}.
 
 (* ---------- shape of the status after the sync phase ---------- *)
 (* what execute can do to (phase, batch, state) *)
@@ -274,4 +274,50 @@ Theorem br_deletion_not_blocked sp st w r : sp_deleting sp = true -> sp_finalize
   reconcile sp st w = Some r -> r_finalizer r = false.
 Proof.
   intros Hd Hfin Hp H. unfold reconcile in H. rewrite Hd, Hfin, Hp in H. cbn in H. injection H as <-. reflexivity.
+Qed.
+
+(* ---------- C07: a quiet BatchRelease reconcile is waiting for somebody else ---------- *)
+Lemma sync_completed_stops sp st w s2 stop : bs_phase st = PhCompleted -> sync_status sp st w = (s2, stop) -> stop = true.
+Proof.
+  intros Hp. unfold sync_status. rewrite Hp. cbn [brphase_eqb].
+  destruct (sync_workload sp st w) as [ev has_info]. intros H. injection H as _ <-. reflexivity.
+Qed.
+
+Theorem br_quiet_is_waiting sp st w r :
+  reconcile sp st w = Some r -> r_finalizer r = true ->
+  r_requeue r = RqNone -> r_err r = false -> status_eqb st (r_status r) = true ->
+  waits_br sp st w = true.
+Proof.
+  intros H Hf Hrq He Hs. unfold waits_br. unfold reconcile in H.
+  destruct (sp_deleting sp && brphase_eqb (bs_phase st) PhCompleted && sp_finalizer sp).
+  { injection H as <-. cbn in Hf. discriminate. }
+  destruct (sync_status sp st w) as [s2 stop] eqn:Hsync. cbn [snd].
+  destruct (negb (status_eqb st s2)) eqn:En.
+  { injection H as <-. cbn in Hrq. discriminate. }
+  destruct stop; [reflexivity|]. cbn [orb].
+  apply negb_false_iff in En. apply status_eqb_eq in En. subst s2.
+  apply status_eqb_eq in Hs.
+  destruct (execute sp st st w) as [|s w' rq err up] eqn:Hx; [discriminate|].
+  injection H as <-. cbn in Hrq, He, Hs. subst rq err.
+  assert (Hph : bs_phase s = bs_phase st /\ bs_state s = bs_state st) by (rewrite Hs; cbn; auto).
+  destruct Hph as [Hph Hst]. clear Hs.
+  unfold execute in Hx. destruct (bs_phase st) eqn:Ep.
+  - (* Initial and other phases: prepare *)
+    destruct (negb (w_exists w)); [discriminate|discriminate].
+  - destruct (negb (w_exists w)); [discriminate|discriminate].
+  - (* Progressing *)
+    destruct (negb (w_exists w)); [discriminate|].
+    destruct (bs_state st) eqn:Es.
+    + destruct (w_replicas w =? 0); [discriminate|]. destruct (calc_ctx _); discriminate.
+    + destruct (if w_replicas w =? 0 then Some true else _) as [[|]|]; discriminate.
+    + cbn [brphase_eqb bstate_eqb andb].
+      destruct (if w_replicas w =? 0 then Some true else _) as [[|]|]; try discriminate.
+      destruct (is_partitioned sp st); [reflexivity|discriminate].
+    + destruct (w_replicas w =? 0); [discriminate|]. destruct (calc_ctx _); discriminate.
+    + destruct (w_replicas w =? 0); [discriminate|]. destruct (calc_ctx _); discriminate.
+  - (* Finalizing: the status moves to Completed *)
+    exfalso. destruct (negb (w_exists w)); injection Hx; intros; subst s; cbn in Hph; discriminate.
+  - (* Completed: the sync phase had stopped *)
+    exfalso. pose proof (sync_completed_stops sp st w st false Ep Hsync). discriminate.
+  - destruct (negb (w_exists w)); [discriminate|discriminate].
 Qed.
